@@ -94,13 +94,14 @@ def _case(draw):
         else:
             comps.append(["f", "push", [], [["t", "px"], ["f", "line_number", [], []]]])
     policy = draw(st.sampled_from(POLICIES))
-    return {"table": table, "scan": scan, "prog": {"comps": comps, "mode": "AND", "ignore_vars": []}, "policy": policy}
+    return {"table": table, "scan": scan, "prog": {"comps": comps, "mode": "AND", "ignore_vars": []}, "policy": policy,
+            "override": draw(st.sampled_from([None, None, None, "fail", "no-fail"]))}
 
 
 @st.composite
 def _gcase(draw):
     """history of 1-3 group runs (new or reused CsvPaths): members with conditional fail()/fail_all()"""
-    table = draw(progs.tables(min_rows=2, max_rows=6, ragged=False, extra=False))
+    table = draw(progs.tables(min_rows=2, max_rows=6, ragged=False, extra=False, lead_blank=True))
     nrec = len(table["records"])
     runs = []
     for k in range(draw(st.integers(1, 3))):
@@ -205,9 +206,15 @@ def run_case(case, sb):
     sb.write_config(case["policy"])
     rel = sb.write_csv("f.csv", records)
     text = common.text_of(full, rel, case["scan"])
-    labels = ["policy:" + "+".join(case["policy"])]
+    eff = set(case["policy"])
+    ov = case.get("override")
+    if ov:
+        # a validation-mode comment overrides the policy's 'fail' for this csvpath only
+        text = common.text_of(full, rel, case["scan"], comment=f"~ validation-mode: {ov} ~ ")
+        eff = (eff | {"fail"}) if ov == "fail" else (eff - {"fail"})
+    labels = ["policy:" + "+".join(case["policy"]), f"override:{ov}"]
     it = refinterp.Interp(full, records, common.scanset(case["scan"], len(records)))
-    it.error_policy = set(case["policy"])
+    it.error_policy = eff
     try:
         model = it.run()
     except refinterp.Undefined as u:
